@@ -469,6 +469,52 @@ def run_many(rec, tier, seed):
                     rec.violation("substitution_effect:after_wrong:many", case, observed=val if st != "ok" else None)
                 if not torch.equal(X, Xc):
                     rec.violation("variant_effect:input_modified:many", case)
+    # insertions at coordinate 0 of one example and at coordinate L (appending) of another, in every row order; substitutions that name the
+    # same column in adjacent examples, once counted from the end and once from the start
+    B, L = 3, 6
+    codes = rs.randint(0, A, (B, L))
+    X = ohe(codes, A, torch.float32)
+    import itertools as it
+    cells = [(e, p) for e in range(B) for p in (0, L, 3)]
+    for pair in it.permutations(cells, 2):
+        rows = [(e, p, (e + p) % A) for (e, p) in pair]
+        for left in (False, True):
+            exp = []
+            for b in range(B):
+                s_ = list(codes[b])
+                for (e, p, c) in sorted([r for r in rows if r[0] == b], key=lambda r: -r[1]):
+                    s_ = s_[:p] + [c] + s_[p:]
+                n_ins = max(sum(1 for r in rows if r[0] == bb) for bb in range(B))
+                # every example ends with the original length: the overhang is trimmed from the chosen side
+                exp.append(s_[-L:] if left else s_[:L])
+            st, val, _ = _capture(insertion_effect, X, torch.tensor(rows, dtype=torch.int64), left, False, B)
+            rec.case(1, 1)
+            case = dict(fn="insertion_effect", L=L, B=B, insertions=rows, left=left, seqs="rs(23+seed)")
+            if st != "ok":
+                rec.violation("insertion_effect:raises:many", case, observed=val)
+                continue
+            ga, oka = decode(val[1].float())
+            if not oka or not numpy.array_equal(ga, numpy.array(exp)):
+                rec.violation("insertion_effect:after_wrong:many", case)
+    for e in range(1, B):
+        for p in (0, 2, L - 1):
+            rows = [(e, p - L, (int(codes[e, p]) + 1) % A), (e - 1, p, (int(codes[e - 1, p]) + 2) % A)]
+            for rows_ in (rows, rows[::-1]):
+                st, val, _ = _capture(substitution_effect, X, torch.tensor(rows_, dtype=torch.int64), None, False, B)
+                rec.case(1, 1)
+                if st != "ok":
+                    rec.count("refused_negative_position")
+                    # a refusal must not depend on the OTHER example's row: the negative row alone is accepted or refused the same way
+                    st1, _, _ = _capture(substitution_effect, X, torch.tensor(rows[:1], dtype=torch.int64), None, False, B)
+                    if st1 == "ok":
+                        rec.violation("substitution_effect:rejects_valid:rows_of_different_examples_conflict", dict(fn="substitution_effect", L=L, B=B, substitutions=rows_), observed=val)
+                    continue
+                exp = codes.copy()
+                exp[e, p] = rows[0][2]
+                exp[e - 1, p] = rows[1][2]
+                ga, oka = decode(val[1].float())
+                if not oka or not numpy.array_equal(ga, exp):
+                    rec.violation("substitution_effect:negative_position_edits_elsewhere", dict(fn="substitution_effect", L=L, B=B, substitutions=rows_))
     rec.sample(dict(kind="many", deletion_counts=counts, dtypes=[str(d) for d in dts], table_rows=[17, 24, 200, 300]))
 
 
